@@ -99,6 +99,42 @@ UNITS.update({
         "complete": "unbounded: every input string, every n",
         "timeout": 600,
     },
+    "U-NTT-CORE": {
+        "backend": "verus",
+        "template": "contracts/ntt_core.vc",
+        "trusted": ["Verus 0.2026.09.13 / Z3; vstd (slices, arithmetic lemmas)",
+                    "Felt operator contracts (Add, Sub, Mul; discharged by Kani in U-FELT)",
+                    "generic trait text instantiated at Self := Felt only (D1)"],
+        "assumption_lines": [r"external_body"],
+        "dropped": ["D1: proofs are about the Felt instantiation of the generic trait bodies", "D2: trait dispatch"],
+        "complete": "unbounded: every power-of-two length up to 1024 and every input",
+        "timeout": 900,
+    },
+    "U-NTT-POLY": {
+        "backend": "verus",
+        "template": "contracts/ntt_poly.vc",
+        "trusted": ["Verus 0.2026.09.13 / Z3; vstd",
+                    "felt_fft / felt_ifft contracts (discharged in U-NTT-CORE)",
+                    "table_facts about FELT_BITREVERSED_POWERS[_INVERSE]_1024 and FELT_NINV_* (discharged by Kani in U-TAB: tab_wf, tab_square_relations, tab_inverse_relation, tab_ninv)",
+                    "Felt operator contracts (U-FELT)", "derive(Clone) on Polynomial returns an equal value",
+                    "operator-assign on Felt equals the operator (discharged by Kani: felt_*_contract '*_assign == *')"],
+        "assumption_lines": [r"external_body"],
+        "dropped": ["D1: F := Felt", "D2: trait dispatch; operator syntax on Polynomial rewritten to the extracted impl functions (R14)"],
+        "complete": "unbounded",
+        "timeout": 900,
+    },
+    "U-VERIFY": {
+        "backend": "verus",
+        "template": "contracts/verify.vc",
+        "trusted": ["Verus 0.2026.09.13 / Z3; vstd",
+                    "callee contracts: hash_to_point (U-H2P), decompress (U-CODEC), Polynomial fft/ifft/hadamard_mul/poly_sub/poly_add (U-NTT-POLY), Felt::new/balanced_value (U-FELT), Polynomial::new",
+                    "table_facts (U-TAB)", "alloc: [a.to_vec(), b.to_vec()].concat() is concatenation",
+                    "UNCHECKED: sha3 computes SHAKE-256 (inherited from U-H2P)"],
+        "assumption_lines": [r"external_body"],
+        "dropped": [],
+        "complete": "unbounded: every message, signature object and public key satisfying the type invariants",
+        "timeout": 900,
+    },
     "U-CODEC": {
         "backend": "verus",
         "template": "contracts/codec.vc",
@@ -154,6 +190,42 @@ PROPS.update({
         "level_text": "Unbounded Verus proof on the extracted text of polynomial.rs::hash_to_point: the returned coefficients are exactly Algorithm 3 applied to the SHAKE-256 output stream of the string (big-endian 16-bit words, reject >= 61445, reduce mod q, first n accepted), each in [0,q); determinism and the 512-prefix-of-1024 clause are theorems over the specification function. Felt::new's contract is discharged by Kani on the real code.",
         "level_note": "Assumed and unchecked: the sha3 crate implements SHAKE-256 (modelled as an uninterpreted byte stream). Partial correctness only (the rejection loop's termination is probabilistic).",
         "technique": "Verus contract on mechanically extracted real function + Kani contract harness for Felt::new",
+    },
+})
+
+PROPS.update({
+    "C11": {
+        "title": "NTT-based multiplication in Z_q[X]/(X^n+1) is exact",
+        "level": "proof",
+        "quick": ["U-NTT-CORE", "U-NTT-POLY", "U-TAB", "U-FELT"],
+        "thorough": ["U-FELT-INV"],
+        "undecided_clauses": [],
+        "assumptions": [],
+        "level_text": "Unbounded deductive proof. The real butterfly loops (trait default bodies fft/ifft at Self := Felt, extracted on every run) are proved by Verus to compute the composition of forward / inverse stages; spec-level theorems (thm_fwd_is_ntt, thm_inv_fwd, lemma_eval_hom, thm_c11_roundtrip, thm_c11_product) prove that composition evaluates at the roots of X^n+1, that the inverse inverts it, and that pointwise products correspond to the negacyclic product, for every power-of-two n <= 1024 and all inputs. The table clauses (bit-reversed powers of a primitive 2048-th root, inverse table, n^-1 constants) are proved on the real tables by Kani with a symbolic index.",
+        "level_note": "Trusted: Verus/Z3, Kani/CBMC, vstd; proofs are for the Felt instantiation of the generic trait code; Felt operators enter Verus as contracts discharged by Kani over their full domains.",
+        "technique": "Verus loop invariants on extracted real code + spec-level lemmas; Kani symbolic-index table harnesses",
+    },
+    "C02": {
+        "title": "verify accepts exactly the signatures the Falcon specification accepts",
+        "level": "proof",
+        "quick": ["U-VERIFY", "U-CODEC", "U-CODEC-K", "U-H2P", "U-NTT-CORE", "U-NTT-POLY", "U-TAB", "U-FELT"],
+        "thorough": [],
+        "undecided_clauses": ["that the sha3 crate computes SHAKE-256 (assumed)"],
+        "assumptions": [],
+        "level_text": "verify's postcondition is the specification function spec_verify (Algorithm 16 with Algorithms 3 and 18, bounds 34034726 / 70265242 typed from the property) for every message, signature object and public key satisfying the type invariants; proved by Verus on the extracted text of verify over the contracts of its callees, each of which is discharged on the real code in its own unit (decompress, hash_to_point, the NTT, Felt arithmetic, tables). Boundary behaviour (norm = bound-1, bound, bound+1) is part of the specification function; a concrete boundary witness is built by the replay tool.",
+        "level_note": "Assumed and unchecked: SHAKE-256 as an abstract stream. Assumed models: BitVec, div_mod_floor, Vec concat. usize = 64 bit.",
+        "technique": "Verus contract composition over per-function contracts + Kani leaf contracts",
+    },
+    "C03": {
+        "title": "Decoders and verify are total: untrusted bytes never cause a panic",
+        "level": "proof",
+        "quick": ["U-VERIFY", "U-CODEC", "U-H2P", "U-NTT-CORE", "U-NTT-POLY", "U-SIG", "U-FELT"],
+        "thorough": [],
+        "undecided_clauses": ["PublicKey::from_bytes and SecretKey::from_bytes whole-function totality (units U-PK / U-SK) are not yet in this check; the secret-key field decoder is covered by U-SKF under C06"],
+        "assumptions": [],
+        "level_text": "Every built-in panic obligation (index, slice range, unwrap, unreachable!/panic! arms, + - * << overflow as in an overflow-checked build) is discharged by Verus in decompress, verify, hash_to_point and the whole NTT path, for all inputs; Signature::from_bytes is total on every byte string of length <= 1300 and Felt::new on every i16 (Kani, complete).",
+        "level_note": "Assumed panic-free: sha3, BitVec/itertools internals (modelled), Vec allocation. Partial: the two key decoders are covered separately.",
+        "technique": "Verus built-in safety obligations on extracted real code + Kani full-domain harnesses",
     },
 })
 
